@@ -134,21 +134,51 @@ def _classes():
     ]
 
 
+def _classes_extra():
+    """thorough tier only: the remaining tagging variants of every class (tags chosen inside the 16-symbol
+    alphabet of the short-string enumeration), DerObject with a preset tag, and the decode() keyword
+    arguments of DerSequence.  5th field: keyword arguments passed to decode()."""
+    from Crypto.Util import asn1
+    return [
+        ("DerObject[tag04]", lambda: asn1.DerObject(0x04), 0x04, False),
+        ("DerObject[tag30]", lambda: asn1.DerObject(0x10, constructed=True), 0x30, False),
+        ("DerInteger[implicit0]", lambda: asn1.DerInteger(implicit=0), 0x80, False),
+        ("DerBoolean[implicit2]", lambda: asn1.DerBoolean(implicit=2), 0x82, False),
+        ("DerBoolean[explicit0]", lambda: asn1.DerBoolean(explicit=0), 0xA0, "explicit"),
+        ("DerBitString[implicit1]", lambda: asn1.DerBitString(implicit=1), 0x81, False),
+        ("DerBitString[explicit0]", lambda: asn1.DerBitString(explicit=0), 0xA0, "explicit"),
+        ("DerObjectId[implicit4]", lambda: asn1.DerObjectId(implicit=4), 0x84, False),
+        ("DerObjectId[explicit0]", lambda: asn1.DerObjectId(explicit=0), 0xA0, "explicit"),
+        ("DerSequence[explicit0]", lambda: asn1.DerSequence(explicit=0), 0xA0, "explicit-members"),
+        ("DerSetOf[implicit0]", lambda: asn1.DerSetOf(implicit=0), 0xA0, True),
+        ("DerSequence[nr_elements=2]", lambda: asn1.DerSequence(), 0x30, True, {"nr_elements": 2}),
+        ("DerSequence[nr_elements=(1,3)]", lambda: asn1.DerSequence(), 0x30, True, {"nr_elements": (1, 3)}),
+        ("DerSequence[only_ints_expected]", lambda: asn1.DerSequence(), 0x30, True, {"only_ints_expected": True}),
+    ]
+
+
 _CLS = None
+_EXTRA = False      # set by run() for the thorough tier (before the workers are forked) and by replay()
+
+
+def _all_classes(extra=None):
+    extra = _EXTRA if extra is None else extra
+    cl = _classes() + (_classes_extra() if extra else [])
+    return [(c[0], c[1], c[2], c[3], c[4] if len(c) > 4 else {}) for c in cl]
 
 
 def der_check(x, acc, part):
     """Offer x to every DER class in both strictness settings."""
     global _CLS
     if _CLS is None:
-        _CLS = _classes()
+        _CLS = _all_classes()
     top = ref_exact(x)
-    for name, mk, tag, constructed in _CLS:
+    for name, mk, tag, constructed, kw in _CLS:
         for strict in (False, True):
             acc.count("evaluations")
             obj = mk()
             try:
-                obj.decode(x, strict=strict)
+                obj.decode(x, strict=strict, **kw)
                 res = "accept"
             except ValueError:
                 res = "ValueError"
@@ -167,12 +197,16 @@ def der_check(x, acc, part):
                 m = ref_members(x, top[2], top[3])
                 if m[0] == "bad":
                     bad = m[1]
-            elif constructed == "explicit":
+            elif constructed in ("explicit", "explicit-members"):
                 m = ref_tlv(x, top[2], top[3])
                 if m[0] == "bad":
                     bad = "inner-" + m[1]
                 elif m[4] != top[3]:
                     bad = "inner-trailing"
+                elif constructed == "explicit-members":
+                    mm = ref_members(x, m[2], m[3])
+                    if mm[0] == "bad":
+                        bad = "inner-" + mm[1]
             acc.seen("classes", (part, name, strict, bad or "wellformed", res))
             if res == "accept" and bad:
                 acc.violation("C13/der-strict/%s/accepts-%s" % (name, bad),
@@ -196,11 +230,12 @@ def der_check(x, acc, part):
 
 def _canonical_for(name, x, top):
     """True when x is *the* canonical DER of the decoded value for this class (reference rule)."""
-    c = x[top[2]:top[3]]
+    cs, ce = top[2], top[3]
     base = name.split("[")[0]
     if "explicit" in name:
-        m = ref_tlv(x, top[2], top[3])
-        c = x[m[2]:m[3]]
+        m = ref_tlv(x, cs, ce)
+        cs, ce = m[2], m[3]
+    c = x[cs:ce]
     if base == "DerInteger":
         return len(c) >= 1 and ref_int_content_min(int.from_bytes(c, "big", signed=True)) == c
     if base == "DerObjectId":
@@ -215,7 +250,7 @@ def _canonical_for(name, x, top):
     if base == "DerBitString":
         return len(c) >= 1 and c[0] == 0
     if base in ("DerSequence", "DerSetOf"):
-        m = ref_members(x, top[2], top[3])
+        m = ref_members(x, cs, ce)
         if m[0] != "ok":
             return False
         encs = []
@@ -227,7 +262,7 @@ def _canonical_for(name, x, top):
             encs.append(x[t[2] - (t[2] - 0):t[3]])
         if base == "DerSetOf":
             full = []
-            a = top[2]
+            a = cs
             for t in m[1]:
                 full.append(x[a:t[4]])
                 a = t[4]
@@ -263,6 +298,18 @@ def der_short_shards(quick):
         else:
             for b in ALPHA16:
                 sh.append(("a16x", 5, a, b))
+            # thorough: every 3-byte string whose first octet is in the alphabet (all 65536 values of
+            # the length octet and the first content / first length-of-length octet), in 16 slices
+            for k in range(16):
+                sh.append(("t3", a, k))
+            # thorough: every complete element with two content octets: [a][02][*][*], in 16 slices
+            for k in range(16):
+                sh.append(("t4", a, k))
+    if not quick:
+        # thorough: every 6-byte string over the 8-symbol alphabet
+        for a in ALPHA8:
+            for b in ALPHA8:
+                sh.append(("a8x", 6, a, b))
     return sh
 
 
@@ -283,6 +330,20 @@ def der_short_worker(shards):
         elif sh[0] == "a16x":
             for t in itertools.product(ALPHA16, repeat=3):
                 der_check(bytes((sh[2], sh[3]) + t), acc, "short")
+        elif sh[0] == "t3":
+            for b in range(16 * sh[2], 16 * sh[2] + 16):
+                for c in range(256):
+                    der_check(bytes((sh[1], b, c)), acc, "short3")
+            acc.count("der_short3", 16 * 256)
+        elif sh[0] == "t4":
+            for b in range(16 * sh[2], 16 * sh[2] + 16):
+                for c in range(256):
+                    der_check(bytes((sh[1], 2, b, c)), acc, "short4")
+            acc.count("der_short4", 16 * 256)
+        elif sh[0] == "a8x":
+            for t in itertools.product(ALPHA8, repeat=4):
+                der_check(bytes((sh[2], sh[3]) + t), acc, "short")
+            acc.count("der_short6", 8 ** 4)
     acc.sample({"part": "der-short", "shard": list(sh), "last_input": "see rule"})
     return acc
 
@@ -362,12 +423,16 @@ def _der_reuse_history(name, mk, xs, fresh, hist, acc):
 def der_reuse_worker(shards):
     global _CLS
     if _CLS is None:
-        _CLS = _classes()
+        _CLS = _all_classes()
     acc = Acc()
-    for name, depth in shards:
+    for shd in shards:
+        name, depth = shd[0], shd[1]
+        part, nparts = (shd[2], shd[3]) if len(shd) > 2 else (0, 1)
         mk = [c for c in _CLS if c[0] == name][0][1]
         xs = _reuse_alphabet(name)
         ops = [(i, st) for i in range(len(xs)) for st in (False, True)]
+        if depth == "deep":          # thorough: every history of 2..5 decodes
+            depth = 5
         fresh = {}
         for (i, st) in ops:
             o = mk()
@@ -383,11 +448,15 @@ def der_reuse_worker(shards):
             acc.error("der-reuse alphabet of %s: %d of %d decodes accepted (needs both kinds)" % (name, nacc, len(ops)))
         nh = 0
         for d in range(2, depth + 1):
-            for hist in itertools.product(ops, repeat=d):
-                _der_reuse_history(name, mk, xs, fresh, hist, acc)
-                nh += 1
+            for fi, first in enumerate(ops):
+                if fi % nparts != part:
+                    continue
+                for rest in itertools.product(ops, repeat=d - 1):
+                    _der_reuse_history(name, mk, xs, fresh, (first,) + rest, acc)
+                    nh += 1
         acc.count("der_reuse_histories", nh)
         acc.seen("classes", ("der-reuse", name, depth, nacc))
+        acc.seen("reuse_depths", (name, depth, len(ops)))
     acc.sample({"part": "der-reuse", "class": name, "alphabet": [x.hex() for x in xs], "depth": depth})
     return acc
 
@@ -419,6 +488,51 @@ def der_seeds():
     return S
 
 
+def der_seeds_extra():
+    """thorough tier: boundary values / lengths, empty containers, and one valid encoding per extra class"""
+    from Crypto.Util import asn1
+    S = []
+    S.append(asn1.DerBoolean(False).encode())
+    S.append(asn1.DerInteger(0).encode())
+    S.append(asn1.DerInteger(-1).encode())
+    S.append(asn1.DerInteger(2 ** 63).encode())
+    S.append(asn1.DerInteger(-(2 ** 63) - 1).encode())
+    S.append(asn1.DerOctetString(b"").encode())
+    S.append(asn1.DerOctetString(asc(127)).encode())               # longest short-form length
+    S.append(asn1.DerOctetString(asc(128)).encode())               # shortest long-form length
+    S.append(asn1.DerBitString(b"").encode())
+    S.append(asn1.DerBitString(asc(140, 1)).encode())
+    S.append(asn1.DerObjectId("2.999.1234567.0.1").encode())
+    S.append(asn1.DerObjectId("0.39").encode())
+    S.append(asn1.DerSequence([]).encode())
+    S.append(asn1.DerSetOf([]).encode())
+    S.append(asn1.DerSequence([7, asn1.DerOctetString(b"xy").encode()]).encode())      # 2 members, one not an INTEGER
+    S.append(asn1.DerSequence([1, -2, 2 ** 70]).encode())                              # 3 INTEGERs
+    S.append(asn1.DerSequence([asn1.DerSequence([asn1.DerSequence([1]).encode()]).encode()]).encode())
+    S.append(asn1.DerSetOf([asn1.DerSequence([1]).encode(), asn1.DerSequence([2, 3]).encode()]).encode())
+    S.append(asn1.DerInteger(5, implicit=0).encode())
+    S.append(asn1.DerBoolean(True, implicit=2).encode())
+    S.append(asn1.DerBoolean(True, explicit=0).encode())
+    S.append(asn1.DerBitString(b"\x5a\xa5", implicit=1).encode())
+    S.append(asn1.DerBitString(b"\x5a\xa5", explicit=0).encode())
+    S.append(asn1.DerObjectId("1.2.840.10045.3.1.7", implicit=4).encode())
+    S.append(asn1.DerObjectId("1.3.101.112", explicit=0).encode())
+    S.append(asn1.DerSequence([1, 2], explicit=0).encode())
+    S.append(asn1.DerSetOf([1, 2], implicit=0).encode())
+    return S
+
+
+def der_pair_seeds():
+    """(seed encoding, offset): every one of the 65536 values of the two octets at offset, offset+1 is tried"""
+    from Crypto.Util import asn1
+    # offset 1 of every base seed: (length octet, first content octet) or (length-of-length, first length octet)
+    out = [(sd, 1) for sd in der_seeds()]
+    out += [(asn1.DerOctetString(asc(300)).encode(), 2),             # 01 2c: both length octets
+            (asn1.DerSequence([1, asn1.DerObjectId("2.5.4.3").encode(), asn1.DerNull().encode()]).encode(), 3),  # member length + content
+            (asn1.DerInteger(77, explicit=0).encode(), 3)]           # inner length + inner content
+    return out
+
+
 SUBST_FEW = (0x00, 0x01, 0x7F, 0x80, 0x81, 0xFF)
 
 
@@ -443,14 +557,34 @@ def mutations(x, full_upto=48, head=8):
 
 
 def der_mut_worker(seeds):
+    """shard elements: a seed encoding (closure with the default bounds), or for the thorough tier
+    ("mut", seed, full_upto, head, part, nparts) / ("pair", seed, offset, part, nparts)"""
     acc = Acc()
     for s in seeds:
         k = 0
-        for m in mutations(s):
-            der_check(m, acc, "mut")
-            k += 1
-        acc.count("der_mutants", k)
-        acc.sample({"part": "der-mut", "seed_encoding": s[:40], "mutants": k})
+        if isinstance(s, bytes):
+            for m in mutations(s):
+                der_check(m, acc, "mut")
+                k += 1
+            acc.count("der_mutants", k)
+            acc.sample({"part": "der-mut", "seed_encoding": s[:40], "mutants": k})
+        elif s[0] == "mut":
+            _, seed, full_upto, head, part, nparts = s
+            for j, m in enumerate(mutations(seed, full_upto, head)):
+                if j % nparts == part:
+                    der_check(m, acc, "mut")
+                    k += 1
+            acc.count("der_mutants", k)
+            acc.sample({"part": "der-mut", "seed_encoding": seed[:40], "mutants": k, "slice": [part, nparts]})
+        elif s[0] == "pair":
+            _, seed, off, part, nparts = s
+            pre, post = seed[:off], seed[off + 2:]
+            for a in range(part, 256, nparts):
+                for b in range(256):
+                    der_check(pre + bytes((a, b)) + post, acc, "pair")
+                    k += 1
+            acc.count("der_pair_mutants", k)
+            acc.sample({"part": "der-pair", "seed_encoding": seed[:40], "offset": off, "mutants": k})
     return acc
 
 
@@ -487,11 +621,12 @@ def _content_of_len(kind, L):
     raise ValueError(kind)
 
 
-def length_forms(L):
-    """-> (canonical length octets, [non-minimal / reserved forms])"""
+def length_forms(L, deep=False):
+    """-> (canonical length octets, [non-minimal / reserved forms]); deep (thorough tier): also 5, 6, 8, 16, 126
+    length octets and the reserved first octet 0xFF followed by 127 length octets"""
     canon = ref_len(L)
     bad = [b"\x80"]               # the indefinite form, with the content (and whatever follows) right behind it
-    for n in (1, 2, 3, 4):
+    for n in (1, 2, 3, 4) + ((5, 6, 8, 16, 126, 127) if deep else ()):
         if L < (1 << (8 * n)):
             f = bytes([0x80 | n]) + L.to_bytes(n, "big")
             if f != canon:
@@ -505,7 +640,9 @@ def der_lenform_worker(shards):
     kinds = [("octet", 0x04, lambda: asn1.DerOctetString()), ("object", 0x0C, lambda: asn1.DerObject()),
              ("bit", 0x03, lambda: asn1.DerBitString()), ("int", 0x02, lambda: asn1.DerInteger()),
              ("seq", 0x30, lambda: asn1.DerSequence()), ("set", 0x31, lambda: asn1.DerSetOf())]
-    for lo, hi in shards:
+    for shd in shards:
+        lo, hi = shd[0], shd[1]
+        deep = len(shd) > 2 and shd[2]
         for L in range(lo, hi):
             for kind, tag, mk in kinds:
                 if L > 2000 and kind in ("seq", "set", "int"):
@@ -513,7 +650,10 @@ def der_lenform_worker(shards):
                 content = _content_of_len(kind, L)
                 if content is None:
                     continue
-                canon, bad = length_forms(L)
+                canon, bad = length_forms(L, deep)
+                if deep:
+                    acc.seen("lenform_canon_octets", len(canon))
+                    acc.count("lenform_lengths")
                 # as a top-level element, and as a member of an outer SEQUENCE (inner length form)
                 for nested in (False, True):
                     forms = [(canon, True, b"")] + [(b, False, b"") for b in bad] + [(b"\x80", False, b"\x00\x00")]
@@ -613,8 +753,75 @@ def der_rt_worker(shards):
                     pass
         elif kind == "nested":
             _rt_nested(acc)
+        elif kind == "oid2":             # thorough: 23 arc values around every base-128 boundary, up to 2 arcs after the first two
+            arcs = OID_ARCS2
+            a0 = sh[1]
+            for a1 in arcs:
+                if a0 < 2 and a1 > 39:
+                    continue
+                for rest in [()] + [(a,) for a in arcs] + [(a, b) for a in arcs for b in arcs]:
+                    _rt_oid(".".join(str(v) for v in (a0, a1) + rest), acc)
+                    acc.count("rt_oids")
+        elif kind == "strings2":         # thorough: every length 2^k-1, 2^k, 2^k+1 for k = 1..20 and 2^24 +-1
+            for L in sorted({v for k in range(1, 21) for v in (2 ** k - 1, 2 ** k, 2 ** k + 1)} | {2 ** 24 - 1, 2 ** 24, 2 ** 24 + 1}):
+                data = asc(L, 3)
+                for cls, tag in ((asn1.DerOctetString, 0x04), (asn1.DerBitString, 0x03)):
+                    acc.count("evaluations")
+                    enc = cls(data).encode()
+                    exp = ref_tlv_enc(tag, data if tag == 4 else b"\x00" + data)
+                    got = cls().decode(enc, strict=True)
+                    val = got.payload if tag == 4 else got.value
+                    if enc != exp or val != data:
+                        acc.violation("C13/der-rt/%s/len%d" % (cls.__name__, L),
+                                      "%s of %d bytes: encode/decode mismatch" % (cls.__name__, L),
+                                      {"part": "rt-strings2", "L": L})
+                    acc.seen("classes", ("rt", cls.__name__, "len-octets", len(ref_len(L + (tag == 3)))))
+        elif kind == "tags2":            # thorough: every tag number 0..30 x IMPLICIT/EXPLICIT x every class that takes them
+            _rt_tags2(sh[1], acc)
     acc.sample({"part": "der-roundtrip", "shard": [str(s)[:60] for s in sh]})
     return acc
+
+
+OID_ARCS2 = [0, 1, 2, 39, 40, 47, 48, 79, 80, 127, 128, 129, 255, 256, 16383, 16384, 2 ** 21 - 1, 2 ** 21,
+             2 ** 28 - 1, 2 ** 28, 2 ** 32, 2 ** 64 - 1, 2 ** 64]
+
+
+def _rt_tags2(t, acc):
+    from Crypto.Util import asn1
+    oid = "1.2.840.113549.1.1.11"
+    members = [asn1.DerOctetString(b"b").encode(), asn1.DerOctetString(b"a").encode()]
+    # (class, value, universal tag, reference content octets, modes, value getter)
+    table = [
+        (asn1.DerInteger, -129, 0x02, ref_int_content_min(-129), ("implicit", "explicit"), lambda o: o.value),
+        (asn1.DerBoolean, True, 0x01, b"\xff", ("implicit", "explicit"), lambda o: o.value),
+        (asn1.DerOctetString, asc(130), 0x04, asc(130), ("implicit",), lambda o: o.payload),
+        (asn1.DerObjectId, oid, 0x06, ref_oid_content(oid), ("implicit", "explicit"), lambda o: o.value),
+        (asn1.DerBitString, b"\x0f\xf0", 0x03, b"\x00\x0f\xf0", ("implicit", "explicit"), lambda o: o.value),
+        (asn1.DerSequence, [1, -2, members[0]], 0x30,
+         b"\x02\x01\x01\x02\x01\xfe" + members[0], ("implicit", "explicit"), lambda o: list(o[:])),
+        (asn1.DerSetOf, members, 0x31, b"".join(sorted(members)), ("implicit",), lambda o: sorted(o[i] for i in range(len(o)))),
+    ]
+    for cls, val, utag, content, modes, get in table:
+        for mode in modes:
+            acc.count("evaluations")
+            enc = cls(val, **{mode: t}).encode()
+            if mode == "explicit":
+                exp = ref_tlv_enc(0xA0 | t, ref_tlv_enc(utag, content))
+            else:
+                exp = ref_tlv_enc(0x80 | (utag & 0x20) | t, content)
+            ok = enc == exp
+            back = None
+            if ok:
+                for strict in (False, True):
+                    back = get(cls(**{mode: t}).decode(enc, strict=strict))
+                    want = sorted(val) if cls is asn1.DerSetOf else val
+                    ok = ok and back == want
+            acc.seen("classes", ("rt", "tag2", cls.__name__, mode, t))
+            if not ok:
+                acc.violation("C13/der-rt/tagged/%s/%s" % (cls.__name__, mode),
+                              "%s(%s, %s=%d) -> %s, expected %s, decoded %s"
+                              % (cls.__name__, short(val), mode, t, short(enc), short(exp), short(back)),
+                              {"part": "rt-tags2", "t": t})
 
 
 def _rt_int(v, acc):
@@ -788,10 +995,18 @@ def pad_worker(shards):
                 for t in itertools.product(range(256), repeat=n) if n <= 2 else ():
                     for st in STYLES:
                         pad_case(bytes(t), bs, st, acc)
+        elif sh[0] == "all3":            # thorough: every 3-byte string with first byte sh[2], block size sh[1] (1 or 3)
+            bs, a = sh[1], sh[2]
+            for b in range(256):
+                for c in range(256):
+                    p3 = bytes((a, b, c))
+                    for st in STYLES:
+                        pad_case(p3, bs, st, acc)
+            acc.count("pad_all3", 65536)
         elif sh[0] == "tail":            # every final byte x every filler pattern
             bs, st = sh[1], sh[2]
             fillers = (0x00, 0x01, 0x80, 0xFF, "k", "asc")
-            for nblocks in (1, 2):
+            for nblocks in (sh[3] if len(sh) > 3 else (1, 2)):
                 n = bs * nblocks
                 for last in range(256):
                     for f in fillers:
@@ -840,6 +1055,57 @@ def num_worker(shards):
                                       % (short(n), bsz, short(got), short(exp)),
                                       {"part": "l2b", "n": n, "bsz": bsz})
             acc.seen("classes", ("l2b", sh[1] >> 12))
+        elif sh[0] in ("l2b2", "l2bpow"):    # thorough: larger n / every power of two boundary, selected block sizes
+            if sh[0] == "l2b2":
+                vals, bszs = range(sh[1], sh[2]), (0, 1, 2, 3, 4, 8)
+            else:
+                vals = [v for k in sh[1] for v in (2 ** k - 1, 2 ** k, 2 ** k + 1)]
+                bszs = (0, 1, 2, 3, 4, 7, 8, 9, 16, 32, 64, 128)
+            for n in vals:
+                raw = n.to_bytes(max(1, (n.bit_length() + 7) // 8), "big")
+                for bsz in bszs:
+                    acc.count("evaluations")
+                    got = long_to_bytes(n, bsz)
+                    exp = raw if bsz == 0 else bytes((-len(raw)) % bsz) + raw
+                    if got != exp or bytes_to_long(got) != n:
+                        acc.violation("C13/long_to_bytes", "long_to_bytes(%s,%d)=%s expected %s"
+                                      % (short(n), bsz, short(got), short(exp)),
+                                      {"part": "l2b", "n": n, "bsz": bsz})
+            acc.seen("classes", ("l2b", sh[0], len(bszs)))
+        elif sh[0] == "b2l":                 # thorough: bytes_to_long of every string of <= 2 bytes behind 0..9 zero bytes
+            for a in range(sh[1], sh[2]):
+                for tail in [bytes([a])] + [bytes([a, b]) for b in range(256)] + ([b""] if a == 0 else []):
+                    for z in range(10):
+                        acc.count("evaluations")
+                        x = bytes(z) + tail
+                        n = bytes_to_long(x)
+                        back = long_to_bytes(n)
+                        if n != int.from_bytes(x, "big") or back != (x.lstrip(b"\x00") or b"\x00"):
+                            acc.violation("C13/bytes_to_long", "bytes_to_long(%s)=%s, long_to_bytes of it = %s"
+                                          % (x.hex(), short(n), short(back)), {"part": "b2l", "x": x})
+            acc.seen("classes", ("b2l", sh[1]))
+        elif sh[0] in ("rfc1751-bits", "rfc1751-bytes"):
+            keys = []
+            if sh[0] == "rfc1751-bits":      # every 64-bit and 128-bit key with exactly one or two bits set
+                for nb in (64, 128):
+                    for i in range(nb):
+                        keys.append((1 << i).to_bytes(nb // 8, "big"))
+                        for j in range(i):
+                            keys.append(((1 << i) | (1 << j)).to_bytes(nb // 8, "big"))
+            else:                            # every byte value at every position over 3 backgrounds
+                for nb in (8, 16):
+                    for bg in (bytes(nb), b"\xff" * nb, asc(nb, 0x31)):
+                        for pos in range(nb):
+                            for v in range(256):
+                                keys.append(bg[:pos] + bytes([v]) + bg[pos + 1:])
+            for key in keys:
+                acc.count("evaluations")
+                w = RFC1751.key_to_english(key)
+                back = RFC1751.english_to_key(w)
+                if back != key or len(w.split()) != 6 * len(key) // 8:
+                    acc.violation("C13/rfc1751/roundtrip", "key %s -> %r -> %s" % (key.hex(), w, short(back)),
+                                  {"part": "rfc1751", "key": key})
+            acc.seen("classes", ("rfc1751", sh[0], len(keys)))
         elif sh[0] == "rfc1751":
             for hi in range(sh[1], sh[2]):
                 for lo in range(256):
@@ -898,10 +1164,151 @@ def ref_pem(data, marker):
     return out + "-----END %s-----" % marker
 
 
+PEM_ALGOS = ("DES-CBC", "DES-EDE3-CBC", "AES-128-CBC", "AES-192-CBC", "AES-256-CBC", "id-aes256-GCM")
+
+
+def ref_evp_bytes_to_key(pw, salt, klen):
+    """OpenSSL EVP_BytesToKey with MD5, one iteration (the RFC 1423 key derivation generalised by OpenSSL)"""
+    import hashlib
+    d, out = b"", b""
+    while len(out) < klen:
+        d = hashlib.md5(d + pw + salt).digest()
+        out += d
+    return out[:klen]
+
+
+def ref_pem_encrypted(data, marker, pw, algo, salt):
+    """RFC 1421 / OpenSSL legacy encrypted PEM built from the reference ciphers (the library itself only writes
+    DES-EDE3-CBC but reads all of PEM_ALGOS)"""
+    from ..ref import aes, des, modes
+    if algo == "DES-CBC":
+        body = modes.cbc_encrypt(des.DES(ref_evp_bytes_to_key(pw, salt, 8)), salt, ref_pad(data, 8, "pkcs7"))
+    elif algo == "DES-EDE3-CBC":
+        body = modes.cbc_encrypt(des.TDES(ref_evp_bytes_to_key(pw, salt, 24)), salt, ref_pad(data, 8, "pkcs7"))
+    elif algo.startswith("AES-"):
+        c = aes.AES(ref_evp_bytes_to_key(pw, salt[:8], int(algo[4:7]) // 8))
+        body = modes.cbc_encrypt(c, salt, ref_pad(data, 16, "pkcs7"))
+    else:                          # id-aes256-GCM: ciphertext only, no tag, no padding
+        c = aes.AES(ref_evp_bytes_to_key(pw, salt[:8], 32))
+        body = modes.gcm_encrypt(c, salt, b"", data)[0]
+    out = "-----BEGIN %s-----\nProc-Type: 4,ENCRYPTED\nDEK-Info: %s,%s\n\n" % (marker, algo, salt.hex().upper())
+    for i in range(0, len(body), 48):
+        out += base64.b64encode(body[i:i + 48]).decode() + "\n"
+    return out + "-----END %s-----" % marker
+
+
+def pem_salt(algo, label):
+    return seeded("pemsalt/" + algo + label, 8 if "DES" in algo else 12 if "GCM" in algo else 16)
+
+
+PEM_INSERT = ("-", " ", "\n", ":", ",", "A", "=", "\x00", "\u00e9", "4")
+
+
+def pem_text_mutants(txt, algo=None):
+    """truncation at every offset; every one of the 256 code points U+0000..U+00FF substituted at every offset;
+    deletion and 10 insertions at every offset; removal / duplication of every line; marker and DEK-Info swaps"""
+    muts = []
+    for i in range(len(txt) + 1):
+        muts.append(txt[:i])
+    for i in range(len(txt)):
+        for v in range(256):
+            if txt[i] != chr(v):
+                muts.append(txt[:i] + chr(v) + txt[i + 1:])
+        muts.append(txt[:i] + txt[i + 1:])
+        for c in PEM_INSERT:
+            muts.append(txt[:i] + c + txt[i:])
+    lines = txt.split("\n")
+    for i in range(len(lines)):
+        muts.append("\n".join(lines[:i] + lines[i + 1:]))
+        muts.append("\n".join(lines[:i] + [lines[i]] * 2 + lines[i + 1:]))
+    muts.append(txt.replace("END RSA PRIVATE KEY", "END RSA PUBLIC KEY"))
+    if algo:
+        for other in PEM_ALGOS + ("FOO", "aes-128-cbc", "ID-AES256-GCM"):
+            if other != algo:
+                muts.append(txt.replace(algo, other))
+        muts.append(txt.replace("4,ENCRYPTED", "4,MIC-ONLY"))
+        muts.append(txt.replace("DEK-Info", "DEK-Inf0"))
+        i = txt.index(",", txt.index("DEK-Info")) + 1
+        j = txt.index("\n", i)
+        for hx in ("", "0", "00", txt[i:j][:-1], txt[i:j] + "0", txt[i:j] + "00", "zz" + txt[i + 2:j], txt[i:j].lower()):
+            muts.append(txt[:i] + hx + txt[j:])          # salt / IV of every wrong size, odd length, non-hex, lower case
+    return muts
+
+
+def pem_mut_case(m, p, label, acc):
+    from Crypto.IO import PEM
+    acc.count("evaluations")
+    try:
+        PEM.decode(m, p)
+        res = "accept"
+        if "END RSA PUBLIC" in m and "BEGIN RSA PRIVATE" in m:
+            acc.violation("C13/pem/marker-mismatch-accepted",
+                          "PEM with different BEGIN/END markers accepted",
+                          {"part": "pem-mut", "text": m, "pw": p})
+    except ValueError:
+        res = "ValueError"
+    except Exception as e:  # noqa
+        res = type(e).__name__
+        acc.violation("C13/pem-decode/%s@%s" % (res, exc_site(e)),
+                      "PEM.decode raised %s: %s" % (res, e),
+                      {"part": "pem-mut", "text": m, "pw": p})
+    acc.seen("classes", ("pem", "mut", label, p is None, res))
+
+
 def pem_worker(shards):
     from Crypto.IO import PEM
     acc = Acc()
     for sh in shards:
+        if sh[0] == "rtc":               # thorough: every DEK-Info algorithm the decoder knows, texts built by the reference
+            algo = sh[1]
+            for L in range(sh[2], sh[3]):
+                data = seeded("pemc%d" % L, L)
+                for marker in ("RSA PRIVATE KEY", "EC PRIVATE KEY"):
+                    for pw in (b"x", b"secret pass"):
+                        acc.count("evaluations")
+                        txt = ref_pem_encrypted(data, marker, pw, algo, pem_salt(algo, str(L)))
+                        try:
+                            o = PEM.decode(txt, pw)
+                        except ValueError as e:
+                            o = ("ValueError", str(e))
+                        if o != (data, marker, True):
+                            acc.violation("C13/pem/decode-encrypted/%s" % algo,
+                                          "PEM encrypted with %s (%d data bytes, passphrase %r) decodes to %s"
+                                          % (algo, L, pw, short(repr(o))),
+                                          {"part": "pem-rtc", "algo": algo, "L": L})
+                        if algo == "DES-EDE3-CBC":
+                            # the library's own writer must produce exactly the reference text (canonical encoding)
+                            salt = pem_salt(algo, str(L))
+                            if PEM.encode(data, marker, pw, lambda n: salt[:n]) != txt:
+                                acc.violation("C13/pem/encode-encrypted", "PEM.encode(%d bytes, passphrase) differs from the "
+                                              "RFC 1421 reference text" % L, {"part": "pem-rtc", "algo": algo, "L": L})
+                        try:        # without / with a wrong passphrase: ValueError or other data, never the data
+                            r = PEM.decode(txt, pw + b"!")
+                            if r[0] == data and L:
+                                acc.violation("C13/pem/wrong-passphrase-accepted", "wrong passphrase returns the data (%s)" % algo,
+                                              {"part": "pem-rtc", "algo": algo, "L": L})
+                        except ValueError:
+                            pass
+                    acc.seen("classes", ("pem", "rtc", algo, L % 16 == 0, L > 48))
+            continue
+        if sh[0] == "mutc":              # thorough: mutation closure of one reference-built encrypted text per algorithm
+            algo = sh[1]
+            data = seeded("pemmut", 70)
+            if algo == "lib-clear":          # the two texts of the quick tier's closure, written by the library
+                txt = PEM.encode(data, "RSA PRIVATE KEY")
+            elif algo == "lib-enc":
+                txt = PEM.encode(data, "RSA PRIVATE KEY", b"pw", Tape("pm"))
+            else:
+                txt = ref_pem_encrypted(data, "RSA PRIVATE KEY", b"pw", algo, pem_salt(algo, "mut"))
+            if sh[2] == 0 and PEM.decode(txt, b"pw") != (data, "RSA PRIVATE KEY", algo != "lib-clear"):
+                acc.error("pem mutation seed for %s does not decode" % algo)
+            k = 0
+            for m in pem_text_mutants(txt, "DES-EDE3-CBC" if algo == "lib-enc" else None if algo == "lib-clear" else algo)[sh[2]::sh[3]]:
+                for p in (b"pw", None, b"zz"):
+                    pem_mut_case(m, p, algo, acc)
+                k += 1
+            acc.count("pem_mutants", k)
+            continue
         if sh[0] == "rt":
             for L in range(sh[1], sh[2]):
                 data = seeded("pem%d" % L, L)
@@ -1064,7 +1471,186 @@ def _small_rsa():
     return _SMALL_RSA
 
 
+_KEYS = {}
+_FIXTURE_PROBLEMS = []
+
+
+def rsa_p8_enc(key, fmt, pw, tape, protection, prot_params):
+    """encrypted PKCS#8 export of an RSA key with ALL randomness taken from `tape`.  RsaKey.export_key hands its
+    randfunc only to the PEM layer (documented: "only used for PEM encoding"), so salt and IV of the PKCS#8
+    encryption would come from the OS and the fixture (hence the number of distinct mutants) would differ
+    from run to run; the same two steps export_key performs are done here with the seam connected."""
+    from Crypto.IO import PKCS8, PEM
+    der = PKCS8.wrap(key.export_key("DER", pkcs=1), "1.2.840.113549.1.1.1", pw, protection,
+                     prot_params=prot_params, randfunc=tape)
+    return der if fmt == "DER" else PEM.encode(der, "ENCRYPTED PRIVATE KEY").encode()
+
+
 def _test_keys(quick=False):
+    """quick: the base fixtures; thorough: base fixtures + _test_keys_extra().  Memoised (the run() parent builds
+    the list once before the workers are forked; every export is deterministic through Tape)."""
+    if quick not in _KEYS:
+        _KEYS[quick] = _test_keys_base(quick) + ([] if quick else _test_keys_extra())
+    return _KEYS[quick]
+
+
+# ---- hand-made containers (formats the library can read but not write) -------
+def _ssh_str(b):
+    return len(b).to_bytes(4, "big") + b
+
+
+def _ssh_mpint(n):
+    return _ssh_str(n.to_bytes(n.bit_length() // 8 + 1, "big") if n else b"")
+
+
+def openssh_private(ssh_name, pub_fields, priv_fields, comment=b"c13@verif", check=b"\x12\x34\x56\x78"):
+    """unencrypted openssh-key-v1 container (PROTOCOL.key), PEM-armoured"""
+    name = _ssh_str(ssh_name)
+    pub = name + b"".join(pub_fields)
+    priv = check * 2 + name + b"".join(priv_fields) + _ssh_str(comment)
+    k = 1
+    while len(priv) % 8:
+        priv += bytes([k])
+        k += 1
+    blob = (b"openssh-key-v1\x00" + _ssh_str(b"none") + _ssh_str(b"none") + _ssh_str(b"") +
+            (1).to_bytes(4, "big") + _ssh_str(pub) + _ssh_str(priv))
+    return blob
+
+
+def x509_cert(spki, version=3):
+    """minimal X.509 Certificate around a SubjectPublicKeyInfo (the signature is a dummy: the library only
+    extracts the key)"""
+    T = ref_tlv_enc
+    name = T(0x30, T(0x31, T(0x30, T(6, ref_oid_content("2.5.4.3")) + T(0x0C, b"c13"))))
+    validity = T(0x30, T(0x17, b"250101000000Z") + T(0x17, b"350101000000Z"))
+    sigalg = T(0x30, T(6, ref_oid_content("1.2.840.113549.1.1.11")) + b"\x05\x00")
+    items = ([T(0xA0, b"\x02\x01\x02")] if version == 3 else []) + \
+        [b"\x02\x01\x01", sigalg, name, validity, name, spki]
+    return T(0x30, T(0x30, b"".join(items)) + sigalg + T(3, b"\x00" + asc(64, 1)))
+
+
+PBES1_ALGOS = (("md5des", "1.2.840.113549.1.5.3", "md5", "DES"), ("sha1des", "1.2.840.113549.1.5.10", "sha1", "DES"),
+               ("md5rc2", "1.2.840.113549.1.5.6", "md5", "RC2"), ("sha1rc2", "1.2.840.113549.1.5.11", "sha1", "RC2"))
+
+
+def pbes1_wrap(plain, pw, algo, salt, count):
+    """EncryptedPrivateKeyInfo under PBES1 (RFC 8018 6.1), built from the reference PBKDF1 and, for DES, the
+    reference DES/CBC; RC2 has no reference primitive: the library's own ARC2 block cipher is used (fixture only)"""
+    from ..ref import kdf, des, modes
+    _, oid, hname, cname = [a for a in PBES1_ALGOS if a[0] == algo][0]
+    dk = kdf.pbkdf1(hname, pw, salt, count, 16)
+    key, iv = dk[:8], dk[8:]
+    padded = ref_pad(plain, 8, "pkcs7")
+    if cname == "DES":
+        ct = modes.cbc_encrypt(des.DES(key), iv, padded)
+    else:
+        from Crypto.Cipher import ARC2
+        ct = ARC2.new(key, ARC2.MODE_CBC, iv, effective_keylen=64).encrypt(padded)
+    T = ref_tlv_enc
+    algid = T(0x30, T(6, ref_oid_content(oid)) + T(0x30, T(4, salt) + T(2, ref_int_content_min(count))))
+    return T(0x30, algid + T(4, ct))
+
+
+def _test_keys_extra():
+    """thorough tier: the formats, curves, protections and entry points the base list does not reach"""
+    from Crypto.PublicKey import RSA, DSA, ECC
+    from Crypto.Util import asn1
+    from ..keys import rsa_key, dsa_key
+    out = []
+    pw = b"pw"
+    T = lambda lab: Tape("kx" + lab)
+    pem = lambda blob, marker: ref_pem(blob, marker).encode()
+    rk, sk = rsa_key(1024), _small_rsa()
+    R, D, E = "RSA", "DSA", "ECC"
+    iqmp = pow(sk.q, -1, sk.p)
+    ssh_rsa = openssh_private(b"ssh-rsa", [_ssh_mpint(sk.e), _ssh_mpint(sk.n)],
+                              [_ssh_mpint(v) for v in (sk.n, sk.e, sk.d, iqmp, sk.p, sk.q)])
+    out += [(R, "pkcs1pub-der", asn1.DerSequence([rk.n, rk.e]).encode(), None),
+            (R, "pkcs1pub-pem", pem(asn1.DerSequence([rk.n, rk.e]).encode(), "RSA PUBLIC KEY"), None),
+            (R, "pkcs8-pem-512", sk.export_key("PEM", pkcs=8), None),
+            (R, "x509v3-der", x509_cert(rk.public_key().export_key("DER")), None),
+            (R, "x509v1-pem-512", pem(x509_cert(sk.public_key().export_key("DER"), 1), "CERTIFICATE"), None),
+            (R, "opensshpriv-pem-512", pem(ssh_rsa, "OPENSSH PRIVATE KEY"), None),
+            (R, "pkcs8-der-pbes1md5des-512", pbes1_wrap(sk.export_key("DER", pkcs=8), pw, "md5des", asc(8, 0x51), 3), pw),
+            (R, "pkcs8-der-sha512aes256gcm-512",
+             rsa_p8_enc(sk, "DER", pw, T("r1"), "PBKDF2WithHMAC-SHA512AndAES256-GCM", {"iteration_count": 2}), pw),
+            (R, "pkcs8-der-scryptaes128gcm-512",
+             rsa_p8_enc(sk, "DER", pw, T("r2"), "scryptAndAES128-GCM",
+                        {"iteration_count": 4, "block_size": 2, "parallelization": 2}), pw)]
+    dk = dsa_key(1024)
+    out += [(D, "openssl-pem-enc", dk.export_key("PEM", pkcs8=False, passphrase=pw, randfunc=T("d1")), pw)]
+    # every NIST curve in every format; p256 additionally through the remaining entry points
+    for i, cv in enumerate(("p192", "p224", "p256", "p384", "p521")):
+        bits = {"p192": 192, "p224": 224, "p256": 256, "p384": 384, "p521": 521}[cv]
+        ek = ECC.construct(curve=cv, d=seeded_int("ecx" + cv, bits - 2) + 7)
+        pk = ek.public_key()
+        nb = (bits + 7) // 8
+        point = b"\x04" + int(pk.pointQ.x).to_bytes(nb, "big") + int(pk.pointQ.y).to_bytes(nb, "big")
+        sshname = b"ecdsa-sha2-nist" + cv.encode()
+        sshpriv = openssh_private(sshname, [_ssh_str(b"nist" + cv.encode()), _ssh_str(point)],
+                                  [_ssh_str(b"nist" + cv.encode()), _ssh_str(point), _ssh_mpint(int(ek.d))])
+        if cv != "p256":
+            out += [(E, cv + "-sec1-der", ek.export_key(format="DER", use_pkcs8=False), None),
+                    (E, cv + "-pkcs8-der", ek.export_key(format="DER"), None),
+                    (E, cv + "-spki-der", pk.export_key(format="DER"), None),
+                    (E, cv + "-openssh", pk.export_key(format="OpenSSH").encode(), None)]
+        out += [(E, cv + "-spki-pem-compressed", pk.export_key(format="PEM", compress=True), None),
+                (E, cv + "-opensshpriv-pem", pem(sshpriv, "OPENSSH PRIVATE KEY"), None),
+                (E, cv + "-sec1raw", pk.export_key(format="SEC1"), None),
+                (E, cv + "-sec1raw-compressed", pk.export_key(format="SEC1", compress=True), None)]
+        if cv == "p224":        # square roots mod p224 take 45 ms in the library: one compressed P-224 fixture (the PEM one)
+            out.pop()
+        if cv == "p256":
+            ecparams = pem(asn1.DerObjectId("1.2.840.10045.3.1.7").encode(), "EC PARAMETERS") + b"\n"
+            out += [(E, "p256-sec1-pem-ecparams", ecparams + ek.export_key(format="PEM", use_pkcs8=False).encode(), None),
+                    (E, "p256-sec1-pem-enc", ek.export_key(format="PEM", use_pkcs8=False, passphrase=pw, randfunc=T("e1")), pw),
+                    (E, "p256-x509v3-der", x509_cert(pk.export_key(format="DER")), None),
+                    (E, "p256-pkcs8-pem-scryptaes256gcm",
+                     ek.export_key(format="PEM", passphrase=pw, randfunc=T("e2"), protection="scryptAndAES256-GCM",
+                                   prot_params={"iteration_count": 2, "block_size": 1}), pw),
+                    (E, "p256-pkcs8-der-pbes1sha1rc2",
+                     pbes1_wrap(ek.export_key(format="DER"), pw, "sha1rc2", asc(8, 0x61), 2), pw)]
+    ed = ECC.construct(curve="ed25519", seed=seeded("edseed", 32))
+    edpub = ed.public_key().export_key(format="raw")
+    sshed = openssh_private(b"ssh-ed25519", [_ssh_str(edpub)], [_ssh_str(edpub), _ssh_str(seeded("edseed", 32) + edpub)])
+    out += [(E, "ed25519-opensshpriv-pem", pem(sshed, "OPENSSH PRIVATE KEY"), None),
+            (E, "ed25519-pkcs8-pem", ed.export_key(format="PEM"), None),
+            (E, "ed25519-spki-pem", ed.public_key().export_key(format="PEM"), None),
+            (E, "ed25519-x509v1-der", x509_cert(ed.public_key().export_key(format="DER"), 1), None),
+            (E, "ed25519-pkcs8-der-pbes1sha1des", pbes1_wrap(ed.export_key(format="DER"), pw, "sha1des", asc(8, 0x71), 1), pw),
+            (E, "ed25519-pkcs8-der-sha3aes192cbc",
+             ed.export_key(format="DER", passphrase=pw, randfunc=T("e3"), protection="PBKDF2WithHMAC-SHA3-256AndAES192-CBC",
+                           prot_params={"iteration_count": 1}), pw)]
+    e4 = ECC.construct(curve="ed448", seed=seeded("ed448seed", 57))
+    x4 = ECC.construct(curve="curve448", seed=seeded("x448seed", 56))
+    xk = ECC.construct(curve="curve25519", seed=seeded("xseed", 32))
+    out += [(E, "ed448-spki-der", e4.public_key().export_key(format="DER"), None),
+            (E, "ed448-pkcs8-pem", e4.export_key(format="PEM"), None),
+            (E, "x448-pkcs8-der", x4.export_key(format="DER"), None),
+            (E, "x448-spki-der", x4.public_key().export_key(format="DER"), None),
+            (E, "x25519-pkcs8-pem", xk.export_key(format="PEM"), None),
+            (E, "x25519-spki-pem", xk.public_key().export_key(format="PEM"), None)]
+    # every fixture must import to the key it was made from (validates the hand-made containers; a mismatch is
+    # reported by run() as a harness error and then analysed by hand)
+    refkeys = {"ed25519": ed, "ed448": e4, "x448": x4, "x25519": xk}
+    for cv in ("p192", "p224", "p256", "p384", "p521"):
+        refkeys[cv] = ECC.construct(curve=cv, d=seeded_int("ecx" + cv, int(cv[1:]) - 2) + 7)
+    install_kdf_guard()
+    for t, lab, blob, p in out:
+        want = (sk if "-512" in lab else rk) if t == R else dk if t == D else refkeys[lab.split("-")[0]]
+        priv = any(w in lab for w in ("pkcs1-", "pkcs8", "sec1-der", "sec1-pem", "opensshpriv", "openssl"))
+        try:
+            got = _importer(t, lab)(blob.encode() if isinstance(blob, str) else blob, p)
+            if got.has_private() != priv or got.public_key() != want.public_key() or \
+                    (priv and got != want):
+                _FIXTURE_PROBLEMS.append("fixture %s/%s imports to a different key" % (t, lab))
+        except Exception as e:  # noqa
+            _FIXTURE_PROBLEMS.append("fixture %s/%s is not importable: %r" % (t, lab, e))
+    out += [(t, lab + "+inner", blob, p) for t, lab, blob, p in out if "opensshpriv" in lab]
+    return [(t, lab, blob.encode() if isinstance(blob, str) else blob, p) for t, lab, blob, p in out]
+
+
+def _test_keys_base(quick=False):
     """one valid key per (type, format, protection) -> list of (label, importer, blob, passphrase)"""
     from Crypto.PublicKey import RSA, DSA, ECC
     from ..keys import rsa_key, dsa_key
@@ -1079,8 +1665,8 @@ def _test_keys(quick=False):
             (R, "pkcs8-der", rk.export_key("DER", pkcs=8), None),
             (R, "pkcs1-pem", rk.export_key("PEM", pkcs=1), None),
             (R, "pkcs1-pem-enc", rk.export_key("PEM", pkcs=1, passphrase=pw, randfunc=T("a")), pw),
-            (R, "pkcs8-der-pbkdf2", rk.export_key("DER", pkcs=8, passphrase=pw, randfunc=T("b"), **prot), pw),
-            (R, "pkcs8-pem-scrypt", rk.export_key("PEM", pkcs=8, passphrase=pw, randfunc=T("c"), **sprot), pw),
+            (R, "pkcs8-der-pbkdf2", rsa_p8_enc(rk, "DER", pw, T("b"), prot["protection"], prot["prot_params"]), pw),
+            (R, "pkcs8-pem-scrypt", rsa_p8_enc(rk, "PEM", pw, T("c"), sprot["protection"], sprot["prot_params"]), pw),
             (R, "spki-der", rk.public_key().export_key("DER"), None),
             (R, "spki-pem", rk.public_key().export_key("PEM"), None),
             (R, "openssh", rk.public_key().export_key("OpenSSH"), None)]
@@ -1119,8 +1705,11 @@ def _test_keys(quick=False):
     return res
 
 
-def _importer(tname):
+def _importer(tname, lab=""):
     from Crypto.PublicKey import RSA, DSA, ECC
+    if tname == "ECC" and "-sec1raw" in lab:        # a bare SEC1 point: the curve is an argument of import_key
+        cv = lab.split("-")[0]
+        return lambda blob, pw=None: ECC.import_key(blob, pw, curve_name=cv)
     return {"RSA": RSA.import_key, "DSA": DSA.import_key, "ECC": ECC.import_key}[tname]
 
 
@@ -1130,7 +1719,7 @@ def _allowed(tname):
 
 def key_case(tname, lab, blob, pw, acc, budget=True, kind="mut"):
     install_kdf_guard()
-    imp = _importer(tname)
+    imp = _importer(tname, lab)
     acc.count("evaluations")
     if pw is None and budget:
         (st, val), calls = counted(imp, blob)
@@ -1164,9 +1753,22 @@ def key_case(tname, lab, blob, pw, acc, budget=True, kind="mut"):
     return res
 
 
-def key_mutants(blob, is_der, quick=False):
+DEEP_FULL = 256       # thorough key files: binary encodings up to this size get all 256 values at EVERY offset
+
+
+def deep_head(blob, binary):
+    """thorough key files and PKCS#8 containers: the head (all 256 values, deletion, insertion) is the whole
+    encoding for binary encodings of at most DEEP_FULL bytes (48 bytes for longer ones, whose import costs
+    10-20 ms per mutant) and 96 characters for text encodings"""
+    if binary:
+        return len(blob) if len(blob) <= DEEP_FULL else 48
+    return 96
+
+
+def key_mutants(blob, is_der, quick=False, deep=None):
     """truncation at every offset, extension, substitution at every offset (value set depends on
-    tier; all 256 values in the structural head for thorough), deletion/insertion in the head"""
+    tier; all 256 values in the structural head for thorough), deletion/insertion in the head.
+    deep: head length override (see deep_head), thorough only"""
     n = len(blob)
     if is_der:
         for i in range(n):
@@ -1177,6 +1779,8 @@ def key_mutants(blob, is_der, quick=False):
         for i in range(0, n, 1):
             yield "mut", blob[:i]
     head = 24 if quick else 48
+    if deep is not None and not quick:
+        head = deep
     for i in range(n):
         if i < head and not quick:
             vals = range(256)
@@ -1194,6 +1798,21 @@ def key_mutants(blob, is_der, quick=False):
         yield "mut", blob + b"\n"
 
 
+def key_mutant_stream(lab, blob, quick):
+    """the mutants of one fixture.  quick: the base closure.  thorough: deep closure; fixtures labelled '+inner'
+    are mutated INSIDE the PEM armour (the binary container is mutated, then armoured again)"""
+    is_der = blob[:1] == b"\x30"
+    if quick:
+        return key_mutants(blob, is_der, quick)
+    if lab.endswith("+inner"):
+        lines = blob.decode().split("\n")
+        marker = lines[0][len("-----BEGIN "):-5]
+        inner = base64.b64decode("".join(lines[1:-1]))
+        return (("mut", ref_pem(m, marker).encode())
+                for kind, m in key_mutants(inner, False, False, deep_head(inner, True)))
+    return key_mutants(blob, is_der, False, deep_head(blob, is_der or "-sec1raw" in lab))
+
+
 def key_worker(shards):
     acc = Acc()
     keys = _test_keys(shards[0][3])
@@ -1205,7 +1824,7 @@ def key_worker(shards):
             if r != "accept":
                 acc.error("valid key %s/%s is not importable (%s): harness seed broken" % (tname, lab, r))
         k = 0
-        for j, (kind, m) in enumerate(key_mutants(blob, is_der, quick)):
+        for j, (kind, m) in enumerate(key_mutant_stream(lab, blob, quick)):
             if j % nparts != part:
                 continue
             if pw is not None and kind != "mut":
@@ -1301,6 +1920,122 @@ def crafted_worker(_):
     return acc
 
 
+P8_HASHES = ("SHA1", "SHA224", "SHA256", "SHA384", "SHA512", "SHA512-224", "SHA512-256",
+             "SHA3-224", "SHA3-256", "SHA3-384", "SHA3-512")
+P8_CIPHERS = ("DES-EDE3-CBC", "AES128-CBC", "AES192-CBC", "AES256-CBC", "AES128-GCM", "AES192-GCM", "AES256-GCM")
+P8_LENGTHS = (0, 1, 7, 8, 15, 16, 17, 20, 127, 128, 300)
+
+
+def p8_protections():
+    """every protection string PKCS8.wrap documents: 11 PBKDF2 hashes x 7 ciphers + scrypt x 7 ciphers"""
+    return ["PBKDF2WithHMAC-%sAnd%s" % (h, c) for h in P8_HASHES for c in P8_CIPHERS] + \
+        ["scryptAnd%s" % c for c in P8_CIPHERS]
+
+
+def p8_mut_protections():
+    """protections whose container gets the mutation closure: all of them (scrypt first: the costliest)"""
+    return sorted(p8_protections(), key=lambda x: not x.startswith("scrypt"))
+
+
+def p8_unwrap_case(m, pw, label, acc):
+    from Crypto.IO import PKCS8
+    acc.count("evaluations")
+    try:
+        PKCS8.unwrap(m, pw)
+        res = "accept"
+    except ValueError:
+        res = "ValueError"
+    except Exception as e:  # noqa
+        res = type(e).__name__
+        acc.violation("C13/pkcs8-unwrap/%s@%s" % (res, exc_site(e)),
+                      "PKCS8.unwrap(<mutated %s container>) raised %s: %s" % (label, res, e),
+                      {"part": "p8", "blob": m, "pw": pw})
+    acc.seen("classes", ("p8mut", label, pw is None, res))
+    return res
+
+
+def p8_deep_worker(shards):
+    """thorough: ("prot", protection) round trip of every payload length under one protection;
+    ("mut", protection, part, nparts) / ("mut1", pbes1 algo, part, nparts) / ("mutclear", params index, part, nparts)
+    deep mutation closure of one container; ("pbes1", algo) reference-built PBES1 containers"""
+    from Crypto.IO import PKCS8
+    from Crypto.Util import asn1
+    install_kdf_guard()
+    acc = Acc()
+    oid = "1.2.840.113549.1.1.1"
+    pp = {"iteration_count": 2, "block_size": 1, "parallelization": 1}
+    for sh in shards:
+        if sh[0] == "prot":
+            prot = sh[1]
+            for L in P8_LENGTHS:
+                payload = seeded("p8pay", L)
+                acc.count("evaluations")
+                w = PKCS8.wrap(payload, oid, passphrase=b"pw", protection=prot, prot_params=pp, randfunc=Tape("p8w" + prot))
+                r = PKCS8.unwrap(w, b"pw")
+                if (r[0], r[1], r[2]) != (oid, payload, None):
+                    acc.violation("C13/pkcs8/roundtrip-enc", "PKCS8 %s round trip of %d bytes differs" % (prot, L),
+                                  {"part": "p8prot", "prot": prot})
+                if ref_exact(w)[0] != "ok" or p8_unwrap_case(w, None, prot, acc) == "accept":
+                    acc.violation("C13/pkcs8/encrypted-container-malformed", "PKCS8 %s container is not one DER element or "
+                                  "unwraps without a passphrase" % prot, {"part": "p8prot", "prot": prot})
+                try:
+                    PKCS8.unwrap(w, b"pX")
+                    if "GCM" in prot:
+                        acc.violation("C13/pkcs8/wrong-pass-accepted", "wrong passphrase accepted under %s" % prot,
+                                      {"part": "p8prot", "prot": prot})
+                except ValueError:
+                    pass
+            acc.seen("classes", ("p8prot", prot))
+            acc.seen("p8_protections", prot)
+        elif sh[0] == "pbes1":
+            algo = sh[1]
+            for L in P8_LENGTHS:
+                for count in (1, 2, 1000):
+                    payload = seeded("p8pay", L)
+                    acc.count("evaluations")
+                    clear = PKCS8.wrap(payload, oid)
+                    w = pbes1_wrap(clear, b"pw", algo, seeded("p8salt%d" % L, 8), count)
+                    try:
+                        r = PKCS8.unwrap(w, b"pw")
+                    except ValueError as e:
+                        r = ("ValueError", str(e), None)
+                    if (r[0], r[1], r[2]) != (oid, payload, None):
+                        acc.violation("C13/pkcs8/pbes1-decode/%s" % algo,
+                                      "reference-built PBES1 %s container (%d bytes, count %d) unwraps to %s"
+                                      % (algo, L, count, short(repr(r))), {"part": "p8pbes1", "algo": algo})
+                    p8_unwrap_case(w, None, "pbes1-" + algo, acc)
+            acc.seen("classes", ("p8pbes1", algo))
+            acc.seen("p8_protections", "pbes1-" + algo)
+        else:
+            kind, which, part, nparts = sh
+            payload = seeded("p8pay", 20)
+            if kind == "mut":
+                w = PKCS8.wrap(payload, oid, passphrase=b"pw", protection=which, prot_params=pp, randfunc=Tape("p8w" + which))
+                label = which
+            elif kind == "mut1":
+                w = pbes1_wrap(PKCS8.wrap(payload, oid), b"pw", which, seeded("p8salt", 8), 2)
+                label = "pbes1-" + which
+            else:
+                params = (asn1.DerNull(), None, asn1.DerObjectId("1.2.840.10045.3.1.7"))[which]
+                w = PKCS8.wrap(payload, oid, key_params=params)
+                label = "clear%d" % which
+            if part == 0 and p8_unwrap_case(w, None if kind == "mutclear" else b"pw", label, acc) != "accept":
+                acc.error("p8 mutation seed %s does not unwrap" % label)
+            k = 0
+            for j, (mk, m) in enumerate(key_mutants(w, True, False, deep_head(w, True))):
+                if j % nparts != part:
+                    continue
+                for pw in (b"pw", None):
+                    res = p8_unwrap_case(m, pw, label, acc)
+                    if res == "accept" and kind == "mutclear" and mk in ("trailing", "truncated"):
+                        acc.violation("C13/pkcs8-strict/clear-%s" % mk, "PKCS8.unwrap accepted a %s clear container" % mk,
+                                      {"part": "p8strict", "blob": m, "pw": pw, "kind": mk})
+                k += 1
+            acc.count("p8_mutants", k)
+    acc.sample({"part": "pkcs8-deep", "last_shard": [str(x) for x in sh]})
+    return acc
+
+
 def p8_worker(shards):
     """PKCS8.wrap/unwrap round trip and mutation closure (clear and encrypted)"""
     from Crypto.IO import PKCS8
@@ -1360,8 +2095,31 @@ def p8_worker(shards):
 
 
 # ---------------------------------------------------------------------------
+def _key_weight(tname, lab, blob, pw):
+    """rough cost of one mutant in ms (only used to size and order the shards of the thorough tier)"""
+    binary = blob[:1] == b"\x30"
+    if tname == "DSA":
+        return 16.0 if binary else (0.8 if pw else 4.0)
+    if tname == "RSA":
+        if "+inner" in lab:
+            return 14.0
+        if pw:
+            return 1.3
+        if lab in ("pkcs1-der", "pkcs8-der"):
+            return 8.0
+        return 2.2 if lab == "pkcs1-pem" else 0.9
+    if "p224" in lab and "compressed" in lab:
+        return 4.5
+    if "+inner" in lab:
+        return 1.5
+    if binary or "sec1raw" in lab:
+        return 2.7 if "p521" in lab else 2.0 if "p384" in lab else 1.5
+    return 0.25
+
+
 def run(ctx):
     import time
+    global _EXTRA, _CLS
     q = ctx.quick
     W = ctx.workers
     _pm = ctx.pmap
@@ -1374,57 +2132,182 @@ def run(ctx):
         return r
     ctx.pmap = timed
     ctx.coverage_extra["phase_wall_s"] = phases
+    if not q:
+        # thorough: reference primitives used to build the encrypted PEM / PBES1 fixtures
+        from ..ref import aes, des, modes, kdf
+        for m in (aes, des, modes, kdf):
+            try:
+                m.selftest()
+            except Exception as e:  # noqa
+                ctx.acc.error("reference self-test failed: %s: %r" % (m.__name__, e))
+        _EXTRA = True               # 14 more DER decoder variants (inherited by the forked workers)
+        _CLS = None
+    ncls = len(_all_classes())
     # DER: short strings
-    ctx.pmap(der_short_worker, chunks(der_short_shards(q), W * 4))
+    ctx.pmap(der_short_worker, chunks(der_short_shards(q), W * 4 if q else 160))
     # DER: mutation closure
-    ctx.pmap(der_mut_worker, chunks(der_seeds(), W))
+    if q:
+        ctx.pmap(der_mut_worker, chunks(der_seeds(), W))
+        nseeds, npairs = len(der_seeds()), 0
+    else:
+        seeds = der_seeds() + der_seeds_extra()
+        nseeds, npairs = len(seeds), len(der_pair_seeds())
+        sh = []
+        for sd in sorted(seeds, key=len, reverse=True):
+            np_ = 8 if len(sd) > 100 else 2
+            sh += [[("mut", sd, 160, 24, k, np_)] for k in range(np_)]
+        sh += [[("pair", sd, off, k, 8)] for sd, off in der_pair_seeds() for k in range(8)]
+        ctx.pmap(der_mut_worker, sh)
     # DER: every length form (canonical + all non-minimal forms up to 4 length octets) of every content length
-    top = 300 if q else 1100
-    ctx.pmap(der_lenform_worker, [[(a, min(a + 25, top + 1))] for a in range(0, top + 1, 25)] + [[(65535, 65537)]])
-    # DER: one object decoded repeatedly (every history of 2..3 decodes over accepted and refused encodings)
-    ctx.pmap(der_reuse_worker, [[(c[0], 3)] for c in _classes()])
+    lf_top = 300 if q else 8300
+    if q:
+        ctx.pmap(der_lenform_worker, [[(a, min(a + 25, lf_top + 1))] for a in range(0, lf_top + 1, 25)] + [[(65535, 65537)]])
+        lf_extra = [65535, 65536]
+    else:
+        lf_extra = sorted({v for k in (14, 15, 16, 17, 20, 24) for v in (2 ** k - 1, 2 ** k, 2 ** k + 1)})
+        ctx.pmap(der_lenform_worker, [[(L, L + 1, True)] for L in reversed(lf_extra)] +
+                 [[(a, min(a + 25, lf_top + 1), True)] for a in range(0, lf_top + 1, 25)])
+    # DER: one object decoded repeatedly (every history of 2..3 decodes over accepted and refused encodings;
+    # thorough: 2..5 decodes)
+    if q:
+        ctx.pmap(der_reuse_worker, [[(c[0], 3)] for c in _classes()])
+    else:
+        ctx.pmap(der_reuse_worker, [[(c[0], "deep", k, 2 * len(_reuse_alphabet(c[0])))]
+                                    for c in _classes() for k in range(2 * len(_reuse_alphabet(c[0])))])
     # DER: round trips
-    rng = 8000 if q else 70000
-    step = 2000
+    rng = 8000 if q else 300000
+    step = 2000 if q else 10000
     sh = [("int", a, min(a + step, rng + 1)) for a in range(-rng, rng + 1, step)]
-    ks = list(range(2, 2101)) if not q else list(range(2, 140)) + [255, 256, 511, 512, 1023, 1024, 2047, 2048, 2100]
+    kmax = 2100 if q else 4200
+    ks = list(range(2, kmax + 1)) if not q else list(range(2, 140)) + [255, 256, 511, 512, 1023, 1024, 2047, 2048, 2100]
     sh += [("intpow", c) for c in chunks(ks, 8)]
     sh += [("oid",), ("strings",), ("tags",), ("nested",)]
+    if not q:
+        sh = [("strings2",)] + sh + [("oid2", a0) for a0 in (0, 1, 2)] + [("tags2", t) for t in range(31)]
     ctx.pmap(der_rt_worker, [[s] for s in sh])
     # padding
-    bss = list(range(1, 33)) + [255]
+    bss = list(range(1, 33)) + [255] + ([] if q else list(range(33, 65)) + [127, 128, 254])
     sh = [[("rt", b)] for b in bss] + [[("all", 1)], [("all", 2)], [("badlen",)]]
-    sh += [[("tail", b, st)] for b in ((8, 16) if not q else (8,)) for st in STYLES]
+    if q:
+        sh += [[("tail", b, st)] for b in (8,) for st in STYLES]
+        tail_bs = (8,)
+    else:
+        tail_bs = (32, 24, 17, 16, 15, 9, 8, 7, 5, 4, 3, 2, 1)
+        sh = [[("tail", b, st, (1, 2, 3) if b <= 17 else (1, 2))] for b in tail_bs for st in STYLES] + sh
+        # every 3-byte string, as one block (bs 3) and as three blocks (bs 1)
+        sh += [[("all3", bs, a) for a in range(a0, a0 + 4)] for bs in (3, 1) for a0 in range(0, 256, 4)]
     ctx.pmap(pad_worker, sh)
     # numbers / RFC1751
-    top = 2 ** 16 if not q else 2 ** 13
-    sh = [[("l2b", a, a + 1024)] for a in range(0, top, 1024)]
+    l2b_top = 2 ** 16 if not q else 2 ** 13
+    sh = [[("l2b", a, a + 1024)] for a in range(0, l2b_top, 1024)]
     sh += [[("rfc1751", a, a + 8)] for a in range(0, 256 if not q else 32, 8)] + [[("rfc1751-b",)]]
+    if not q:
+        sh += [[("l2b2", a, a + 2048)] for a in range(2 ** 16, 2 ** 18, 2048)]
+        sh += [[("l2bpow", c)] for c in chunks(list(range(2, 4201)), 32)]
+        sh += [[("b2l", a, a + 32)] for a in range(0, 256, 32)] + [[("rfc1751-bits",)], [("rfc1751-bytes",)]]
     ctx.pmap(num_worker, sh)
     # PEM
-    sh = [[("rt", a, a + 10)] for a in range(0, 110 if not q else 60, 10)] + [[("mut", i, 16)] for i in range(16)]
+    pem_top = 110 if not q else 60
+    sh = [[("rt", a, a + 10)] for a in range(0, pem_top, 10)] + [[("mut", i, 16)] for i in range(16)]
+    if not q:
+        sh = [[("mutc", algo, i, 8)] for algo in PEM_ALGOS + ("lib-clear", "lib-enc") for i in range(8)] + sh
+        sh += [[("rt", a, a + 10)] for a in range(110, 400, 10)]
+        sh += [[("rtc", algo, a, a + 12)] for algo in PEM_ALGOS for a in range(0, 96, 12)]
     ctx.pmap(pem_worker, sh)
     # key files
-    nk = len(_test_keys(q))
-    parts = 8
-    ctx.pmap(key_worker, [[(ki, p, parts, q)] for ki in range(nk) for p in range(parts)])
+    keys = _test_keys(q)
+    nk = len(keys)
+    for msg in _FIXTURE_PROBLEMS:
+        ctx.acc.error(msg)
+    if q:
+        parts = 8
+        ctx.pmap(key_worker, [[(ki, p, parts, q)] for ki in range(nk) for p in range(parts)])
+    else:
+        # shards of about 6 s each, heaviest fixtures first
+        plan = []
+        for ki, (tname, lab, blob, pw) in enumerate(keys):
+            n = sum(1 for _ in key_mutant_stream(lab, blob, False))
+            w = _key_weight(tname, lab, blob, pw)
+            plan.append((w, n * w, ki, max(1, int(n * w / 6000.0 + 0.999))))
+        plan.sort(key=lambda t: (-t[0], -t[1], t[2]))
+        ctx.pmap(key_worker, [[(ki, p, np_, q)] for _, _, ki, np_ in plan for p in range(np_)])
     ctx.pmap(crafted_worker, [0])
     ctx.pmap(p8_worker, [[("p8", L)] for L in (0, 1, 20, 127, 128, 300)])
+    if not q:
+        sh = [[("mut", prot, k, 4)] for prot in p8_mut_protections() for k in range(4)]
+        sh += [[("mut1", a[0], k, 4)] for a in PBES1_ALGOS for k in range(4)]
+        sh += [[("mutclear", i, k, 2)] for i in range(3) for k in range(2)]
+        sh += [[("prot", prot)] for prot in p8_protections()] + [[("pbes1", a[0])] for a in PBES1_ALGOS]
+        ctx.pmap(p8_deep_worker, sh)
 
     a = ctx.acc
     ctx.require(a.n.get("accepted", 0) > 100, "DER decoders accepted fewer than 100 inputs")
     ctx.require(len(a.distinct.get("classes", ())) > 200, "fewer than 200 behaviour classes observed")
+    cl = a.distinct.get("classes", ())
+    if not q:
+        # vacuity guards for the dimensions of the thorough tier
+        for c in _classes_extra():
+            for strict in (False, True):
+                got = {t[4] for t in cl if len(t) == 5 and t[1] == c[0] and t[2] is strict}
+                ctx.require({"accept", "ValueError"} <= got,
+                            "DER variant %s strict=%s: outcomes %s (needs accept and ValueError)" % (c[0], strict, sorted(got)))
+        ctx.require(a.distinct.get("lenform_canon_octets", set()) >= {1, 2, 3, 4, 5},
+                    "length forms: canonical lengths of 1..5 octets not all exercised")
+        ctx.require({d for _, d, _ in a.distinct.get("reuse_depths", ())} == {5} and
+                    len({n for n, _, _ in a.distinct.get("reuse_depths", ())}) == 12, "reuse histories: depth 5 not used for all 12 classes")
+        ctx.require(a.n.get("der_short3", 0) == 16 * 65536 and a.n.get("der_short4", 0) == 16 * 65536 and a.n.get("der_short6", 0) == 8 ** 6, "short-string enumeration incomplete")
+        ctx.require(a.n.get("der_pair_mutants", 0) == 65536 * npairs, "pair windows incomplete")
+        ctx.require(a.n.get("pad_all3", 0) == 2 * 2 ** 24, "3-byte padding enumeration incomplete")
+        for lab in PEM_ALGOS + ("lib-clear", "lib-enc"):
+            got = {t[4] for t in cl if t[:3] == ("pem", "mut", lab)}
+            ctx.require({"accept", "ValueError"} <= got, "PEM %s mutants: outcomes %s" % (lab, sorted(got)))
+        ctx.require(len(a.distinct.get("p8_protections", ())) == len(p8_protections()) + len(PBES1_ALGOS),
+                    "not every PKCS#8 protection was round-tripped")
+        for lab in p8_mut_protections() + ["pbes1-" + x[0] for x in PBES1_ALGOS] + ["clear0", "clear1", "clear2"]:
+            got = {t[3] for t in cl if t[0] == "p8mut" and t[1] == lab}
+            ctx.require({"accept", "ValueError"} <= got, "PKCS#8 %s mutants: outcomes %s" % (lab, sorted(got)))
+        for tname, lab, blob, pw in keys:
+            got = {t[4] for t in cl if t[:3] == ("key", tname, lab)}
+            ctx.require({"accept", "ValueError"} <= got, "key fixture %s/%s: outcomes %s" % (tname, lab, sorted(got)))
     ctx.coverage_extra.update({
         "evaluations": a.n.get("evaluations", 0),
         "distinct_nontrivial": len(a.distinct.get("classes", ())),
         "exhaustive": not a.caps,
         "max_import_call_events": 2000 * (max(a.distinct.get("call_buckets", {0})) + 1),
-        "parts": ["der-short(all strings len<=2; len 3-5 over 16-symbol alphabet%s)" % (" [quick: len5 over 8 symbols]" if q else ""),
-                  "der-mutation-closure(17 seeds)", "der-object-reuse(12 classes x every history of 2..3 decode() calls; %d histories)" % a.n.get("der_reuse_histories", 0), "der-length-forms(content lengths 0..%d and 65535/65536 x canonical + every non-minimal form of 1..4 length octets, top-level and as SEQUENCE member)" % top, "der-roundtrip(int range +-%d, 2^k+-1 k<=2100, oids, tags 0..30, nested)" % rng,
-                  "padding(bs 1..32,255 x len 0..2bs x 3 styles; all strings bs<=2; tail patterns)",
-                  "long_to_bytes(n<%d x blocksize 0..17)" % top, "rfc1751", "pem(roundtrip+mutation closure)",
-                  "key-import mutation closure (%d keys)" % nk, "crafted fields/OIDs", "pkcs8 wrap/unwrap"],
+        "parts": ["der-short(all strings len<=2; len 3-5 over 16-symbol alphabet%s; offered to %d decoder variants x strict/lenient)"
+                  % (" [quick: len5 over 8 symbols]" if q else "; all 16 x 65536 strings of len 3 with the first octet in the alphabet; all 16 x 65536 "
+                     "elements [a][02][x][y] with two content octets; len 6 over 8-symbol alphabet", ncls),
+                  "der-mutation-closure(%d seeds%s)" % (nseeds, "" if q else "; all 256 values at every offset for seeds <= 160 bytes and in "
+                                                        "the first 24 bytes otherwise; %d two-octet windows x all 65536 values" % npairs),
+                  "der-object-reuse(12 classes x every history of 2..%s decode() calls; %d histories)"
+                  % ("3" if q else "5", a.n.get("der_reuse_histories", 0)),
+                  "der-length-forms(content lengths 0..%d and %s x canonical + every non-minimal form of %s length octets, top-level and as SEQUENCE member)"
+                  % (lf_top, "/".join(str(v) for v in lf_extra), "1..4" if q else "1..6, 8, 16, 126 and 0xFF+127"),
+                  "der-roundtrip(int range +-%d, 2^k+-1 k<=%d, oids%s, tags 0..30%s, nested)"
+                  % (rng, kmax, "" if q else " (10 arc values; thorough also 23 arc values x up to 4 arcs)",
+                     "" if q else " (thorough: x 7 classes x IMPLICIT/EXPLICIT), string lengths 2^k+-1 k<=20 and 2^24+-1"),
+                  "padding(bs %s x len 0..2bs x 3 styles; all strings bs<=2%s; tail patterns for bs %s)"
+                  % ("1..32,255" if q else "1..64,127,128,254,255", "" if q else "; all 2^24 strings of 3 bytes for bs 1 and 3",
+                     ",".join(str(b) for b in sorted(tail_bs))),
+                  "long_to_bytes(n<%d x blocksize 0..17%s)" % (l2b_top, "" if q else "; n<2^18 x blocksize 0,1,2,3,4,8; 2^k+-1 k<=4200 x 12 "
+                                                               "blocksizes; bytes_to_long of every string of <=2 bytes behind 0..9 zero bytes"),
+                  "rfc1751" + ("" if q else "(+ every key with 1 or 2 bits set, every byte value at every position)"),
+                  "pem(roundtrip len<%d + mutation closure%s)" % (pem_top if q else 400, "" if q else
+                                                                   "; every DEK-Info algorithm (%s): reference-built texts len<96 x 2 markers x 2 "
+                                                                   "passphrases; closure with all 256 code points at every offset of 8 texts "
+                                                                   "(one per algorithm + the library's clear and encrypted output), %d mutants"
+                                                                   % (",".join(PEM_ALGOS), a.n.get("pem_mutants", 0))),
+                  "key-import mutation closure (%d keys%s)" % (nk, "" if q else "; binary encodings <= 256 bytes: all 256 values at every offset; "
+                                                                "OpenSSH private keys also mutated inside the armour"),
+                  "crafted fields/OIDs", "pkcs8 wrap/unwrap" + ("" if q else
+                                                                "(thorough: all %d protections x %d payload lengths; reference-built PBES1 x %d; deep "
+                                                                "mutation closure of %d encrypted and 3 clear containers)"
+                                                                % (len(p8_protections()), len(P8_LENGTHS), len(PBES1_ALGOS),
+                                                                   len(p8_mut_protections()) + len(PBES1_ALGOS)))],
     })
+    if not q:
+        ctx.coverage_extra["key_fixtures"] = ["%s/%s" % (t, lab) for t, lab, _, _ in keys]
+        ctx.coverage_extra["der_decoder_variants"] = [c[0] for c in _all_classes()]
     ctx.assume("tag octets are treated as single bytes (high-tag-number form is outside the library's documented support)")
     ctx.assume("INTEGER content minimality is demanded only with strict=True; OID arc canonicity and BIT STRING "
                "unused-bits are not in the property's list and are logged as observations only")
@@ -1432,13 +2315,15 @@ def run(ctx):
 
 
 def replay(case, acc):
+    global _CLS, _EXTRA
     part = case["part"]
+    if not _EXTRA:
+        _EXTRA, _CLS = True, None       # replays offer the input to every decoder variant (a superset of the quick tier's)
     if part == "der":
         der_check(case["x"], acc, "replay")
     elif part == "der-reuse":
-        global _CLS
         if _CLS is None:
-            _CLS = _classes()
+            _CLS = _all_classes()
         name = case["cls"]
         mk = [c for c in _CLS if c[0] == name][0][1]
         xs = _reuse_alphabet(name)
@@ -1455,7 +2340,7 @@ def replay(case, acc):
                     fresh[(i, st)] = (type(e).__name__, None)
         _der_reuse_history(name, mk, xs, fresh, [(j, bool(st)) for j, st in case["history"]], acc)
     elif part == "lenform":
-        acc.merge(der_lenform_worker([(case["L"], case["L"] + 1)]))
+        acc.merge(der_lenform_worker([(case["L"], case["L"] + 1, True)]))
     elif part == "unpad":
         pad_case(case["p"], case["bs"], case["style"], acc)
     elif part == "pad":
@@ -1472,6 +2357,13 @@ def replay(case, acc):
             pass
         except Exception as e:  # noqa
             acc.violation("C13/pkcs8-unwrap/%s@%s" % (type(e).__name__, exc_site(e)), str(e), case)
+    elif part == "p8strict":
+        from Crypto.IO import PKCS8
+        try:
+            PKCS8.unwrap(case["blob"], case["pw"])
+            acc.violation("C13/pkcs8-strict/clear-%s" % case["kind"], "PKCS8.unwrap accepted a %s clear container" % case["kind"], case)
+        except Exception:  # noqa
+            pass
     elif part == "pem-mut":
         from Crypto.IO import PEM
         try:
@@ -1490,8 +2382,29 @@ def replay(case, acc):
         _rt_nested(acc)
     elif part in ("rt-strings", "rt-tags"):
         acc.merge(der_rt_worker([("strings",), ("tags",)]))
+    elif part == "rt-strings2":
+        acc.merge(der_rt_worker([("strings2",)]))
+    elif part == "rt-tags2":
+        _rt_tags2(case["t"], acc)
     elif part == "l2b":
-        acc.merge(num_worker([("l2b", case["n"], case["n"] + 1)]))
+        from Crypto.Util.number import long_to_bytes, bytes_to_long
+        n, bsz = case["n"], case["bsz"]
+        raw = n.to_bytes(max(1, (n.bit_length() + 7) // 8), "big")
+        got = long_to_bytes(n, bsz)
+        if got != (raw if bsz == 0 else bytes((-len(raw)) % bsz) + raw) or bytes_to_long(got) != n:
+            acc.violation("C13/long_to_bytes", "long_to_bytes(%s,%d)=%s" % (short(n), bsz, short(got)), case)
+    elif part == "b2l":
+        from Crypto.Util.number import long_to_bytes, bytes_to_long
+        x = case["x"]
+        n = bytes_to_long(x)
+        if n != int.from_bytes(x, "big") or long_to_bytes(n) != (x.lstrip(b"\x00") or b"\x00"):
+            acc.violation("C13/bytes_to_long", "bytes_to_long(%s)=%s" % (x.hex(), short(n)), case)
+    elif part == "pem-rtc":
+        acc.merge(pem_worker([("rtc", case["algo"], case["L"], case["L"] + 1)]))
+    elif part == "p8prot":
+        acc.merge(p8_deep_worker([("prot", case["prot"])]))
+    elif part == "p8pbes1":
+        acc.merge(p8_deep_worker([("pbes1", case["algo"])]))
     elif part == "rfc1751":
         acc.merge(num_worker([("rfc1751-b",), ("rfc1751", case["key"][0], case["key"][0] + 1)]))
     elif part == "pem-rt":
